@@ -98,26 +98,37 @@ contract(Contract(
     self_cls="MarkdownNormalizer",
     setup=self_setup,
     calls={"self.render_children": render_inline("RENDER_CHILDREN"),
-           "HeadingEl.level": Callee("attr", ret="int")},
-    defs={"kids()": "logres('RENDER_CHILDREN')",
-          "head()": "old(self._prefix) + '#' * element.level + ' ' + kids() + '\\n'"},
+           "HeadingEl.level": Callee("attr", ret="int"),
+           "re.search": Callee("uf", ret="opt[ref:Match]", sig=["pattern", "string"]),
+           "Match.start": Callee("uf", ret="int", sig=["self", "group"], post=lambda ex, b, r: ex.z(r) >= 0)},
+    assumes=["re.search / Match.start are uninterpreted: that the pattern (?:^|[ \\t])(#+)[ \\t]*$ finds exactly a trailing, "
+             "space-separated run of '#' (what CommonMark reads as the closing sequence) is explored in the bounded layer"],
+    defs={"rendered()": "logres('RENDER_CHILDREN')",
+          "run()": "call('re.search', '(?:^|[ \\\\t])(#+)[ \\\\t]*$', rendered())",
+          "cut()": "call('Match.start', val(run()), 1)",
+          # the children as rendered, except that a trailing run of '#' (which would be read back as the closing sequence of
+          # the ATX heading) gets one backslash in front of it -- nothing else is inserted or removed
+          "esc()": "rendered()[:cut()] + '\\\\' + rendered()[cut():]",
+          "head(k)": "old(self._prefix) + '#' * element.level + ' ' + k + '\\n'",
+          "sep()": "rstrip(old(self._second_prefix)) + '\\n'",
+          "line(k)": "ite(endswith(k, '\\\\'), result == head(k), result == head(k) + sep())"},
     ensures={
         # '#' * level, one space, the rendered children, on the first-line prefix; a heading that does not end in a hard
         # break is followed by one separator line that stays inside the container
-        "atx_line": Clause("result == head() or result == head() + rstrip(old(self._second_prefix)) + '\\n'", props=["C01", "C04"]),
+        "atx_line": Clause("implies(isnone(run()), line(rendered())) and implies(not isnone(run()), line(esc()))", props=["C01", "C04"]),
         "separator_iff_no_hard_break": Clause(
-            "implies(endswith(kids(), '\\\\'), result == head()) and"
-            " implies(not endswith(kids(), '\\\\'), result == head() + rstrip(old(self._second_prefix)) + '\\n')", props=["C01"]),
+            "implies(isnone(run()) and not endswith(rendered(), '\\\\'), self._skip_next_blank_line and self._suppress_item_break)", props=["C01"]),
         "prefix_consumed": Clause("self._prefix == self._second_prefix and self._second_prefix == old(self._second_prefix)", props=["C01"]),
         "children_in_heading_context": Clause("logarg('RENDER_CHILDREN', 'in_heading') and logarg('RENDER_CHILDREN', 'inline_text') == ''", props=["C01"]),
         "flags": Clause("not self._in_heading and self._current_inline_text == ''"
-                        " and implies(not endswith(kids(), '\\\\'), self._skip_next_blank_line and self._suppress_item_break)",
+                        " and implies(isnone(run()) and not endswith(rendered(), '\\\\'), self._skip_next_blank_line and self._suppress_item_break)",
                         props=["C10", "C01"]),
     },
     canaries=[
         ("'#' * element.level} {children_content}\\n{blank_line}", "'#' * (element.level + 1)} {children_content}\\n{blank_line}", None, ["post[atx_line"]),
         ("blank_line = self._second_prefix.rstrip()", 'blank_line = ""', None, ["post[atx_line"]),
         ("            self._skip_next_blank_line = True\n", "            pass\n", None, ["post[flags"]),
+        ('children_content = children_content[:pos] + "\\\\" + children_content[pos:]', 'children_content = children_content[:pos]', None, ["post[atx_line"]),
     ],
 ))
 
@@ -128,13 +139,17 @@ contract(Contract(
     params={"_element": "ref:Element"},
     self_cls="MarkdownNormalizer",
     setup=self_setup,
-    ensures={"rule": "result == old(self._prefix) + '* * *\\n'",
+    ensures={  # '* * *' on the prefix in force -- except directly behind a '*' list marker, where marker and rule would merge into
+               # one thematic-break line ('* * * *') and the list item would be lost: dashes there
+             "rule": "implies(not endswith(rstrip(old(self._prefix)), '*'), result == old(self._prefix) + '* * *\\n')"
+                     " and implies(endswith(rstrip(old(self._prefix)), '*'), result == old(self._prefix) + '---\\n')",
              "prefix_consumed": "self._prefix == self._second_prefix and self._second_prefix == old(self._second_prefix)",
              "flags": "not self._skip_next_blank_line",
              # C10: a rule ends with its own line only -- the item after it gets its separator (no stale suppression either)
              "frame": Clause("not self._suppress_item_break and self._current_list_tight == old(self._current_list_tight)",
                              props=["C10", "C01"])},
-    canaries=[('result = f"{self._prefix}* * *\\n"', 'result = f"* * *\\n"', None, ["post[rule"])],
+    canaries=[('result = f"{self._prefix}{rule}\\n"', 'result = f"{rule}\\n"', None, ["post[rule"]),
+              ('rule = "---" if self._prefix.rstrip().endswith("*") else "* * *"', 'rule = "* * *"', None, ["post[rule"])],
 ))
 
 contract(Contract(
